@@ -159,6 +159,17 @@ pub fn pair_corpus() -> Vec<Value> {
     let mut v = v1_plain();
     v.extend(numbers());
     v.extend(s_num());
+    // for every numeric string spelling, the number it denotes is in the corpus too (so equality can hold)
+    for sv in s_num() {
+        if let Some(st) = sv.as_str() {
+            let x = crate::refmodel::string_to_number(st);
+            if x.is_finite() && x.abs() > 9007199254740992.0 {
+                if let Some(n) = serde_json::Number::from_f64(x) {
+                    v.push(Value::Number(n));
+                }
+            }
+        }
+    }
     v.extend(s_uni_sample());
     v.extend(many(&[r#"["1","2"]"#, "[1.0]", "[1e21]", r#"[" 1 "]"#, r#"["0x10"]"#, "[true]", "[false]", r#"[{}]"#, r#"[""]"#, "[-0.0]", "[[2],[3]]", r#"{"b":1}"#]));
     dedup(v)
@@ -284,5 +295,49 @@ pub fn spelling_twins() -> Vec<(Value, Value)> {
         (json!(0), json!(-0.0)),
         (json!(1), json!(1.0)),
         (json!([]), json!("")),
+    ]
+}
+
+/// Integers around the k-th roots of 2^53, 2^63 and 2^64 (k = 2, 3, 4): products of a few of them
+/// cross the precision / integer-width boundaries.
+pub fn factor_boundaries() -> Vec<Value> {
+    many(&["94906265", "94906266", "94906267", "208064", "9742", "3037000500", "2097152", "55109", "65536", "32768", "2642246", "2147483647", "-2147483648", "46341"])
+}
+
+/// Decimal strings with 15..20 significant digits and exponents on both sides of zero: the range in
+/// which "parse the digits as an integer, then scale" is rounded twice.
+pub fn decimal_strings() -> Vec<Value> {
+    let pats = ["12345678901234567890123", "90071992547409930000000", "99999999999999999999999", "10000000000000000000001", "30000000000000000444444"];
+    let mut out = Vec::new();
+    for p in pats {
+        for nd in [15usize, 16, 17, 18, 19, 20] {
+            let d = &p[..nd];
+            out.push(format!("0.{}", d));
+            out.push(format!("{}.{}", &d[..1], &d[1..]));
+            out.push(format!("{}.{}", &d[..nd - 1], &d[nd - 1..]));
+            for e in ["e1", "e-1", "e5", "e-7", "e22", "e-22", "e23", "e300"] {
+                out.push(format!("{}{}", d, e));
+            }
+        }
+    }
+    out.into_iter().map(Value::String).collect()
+}
+
+/// Ways of fetching a value from the data through "hard" paths. Returns (expression, data) for a
+/// given payload: plain key, nested key, negative / positive index, escaped dot, string-typed index,
+/// default of a missing key, computed key, and the whole data.
+pub fn path_fetches(payload: &Value) -> Vec<(&'static str, Value, Value)> {
+    vec![
+        ("plain", json!({"var": "k"}), json!({"k": payload})),
+        ("nested", json!({"var": "a.b"}), json!({"a": {"b": payload, "c": 0}, "a.b": "flat-decoy"})),
+        ("neg-index", json!({"var": "rows.-1"}), json!({"rows": ["decoy", payload]})),
+        ("index", json!({"var": "rows.0"}), json!({"rows": [payload, "decoy"]})),
+        ("escaped", json!({"var": "a\\.b"}), json!({"a.b": payload, "a": {"b": "nested-decoy"}})),
+        ("int-key", json!({"var": 1}), json!(["decoy", payload])),
+        ("int-key-neg", json!({"var": [-1]}), json!(["decoy", payload])),
+        ("default", json!({"var": ["nope.x", {"var": "k"}]}), json!({"k": payload, "nope": 1})),
+        ("computed-key", json!({"var": [{"cat": ["a", ".", "b"]}]}), json!({"a": {"b": payload}})),
+        ("whole", json!({"var": ""}), payload.clone()),
+        ("long-key", json!({"var": "order.shipping.address.line2"}), json!({"order": {"shipping": {"address": {"line1": "decoy", "line2": payload}}}})),
     ]
 }
